@@ -172,7 +172,9 @@ static void run_ef(const Case& c) {
     uint32_t n = std::stoul(c.head[2]), nb = std::stoul(c.head[3]);
     size_t nmax = std::stoul(c.head[4]); uint32_t spacing = std::stoul(c.head[5]);
     PhaseSpace::resetSize(n, nb);
-    auto ps = mkps(n, nb, nullptr);
+    // optional extra[7..10] = qmin qmax pmin pmax (different cell sizes along position and energy)
+    auto ps = c.extra.size() >= 11 ? mkps(n, nb, nullptr, c.extra[7], c.extra[8], c.extra[9], c.extra[10])
+                                   : mkps(n, nb, nullptr);
     std::vector<impedance_t> z; for (auto p : c.parts) z.push_back(impedance_t(p.first, p.second));
     z.resize(nmax, impedance_t(0, 0));
     const auto& e = c.extra;
